@@ -49,7 +49,9 @@ class Layout:
         self.points = []        # locals holding a probed item
         self.bools = []
         self.chains = {}        # param local -> side
+        self.index = {}         # side -> usize local holding the position of the current block in the side's slice
         self.unknown = []
+        usizes = []
         sides = {}
         for l in sorted(live):
             ty = body.local_ty(l)
@@ -77,6 +79,9 @@ class Layout:
             elif ty == "bool":
                 self.bools.append(l)
                 continue
+            elif ty == "usize":
+                usizes.append(l)
+                continue
             else:
                 self.unknown.append(l)
                 continue
@@ -97,6 +102,43 @@ class Layout:
         for l in range(1, body.arg_count + 1):
             if T_CHAIN.match(body.local_ty(l)):
                 self.chains.setdefault(l, "self" if l == 1 else "other")
+        # a live-in usize that indexes a source slice is that sequence's position cursor
+        if usizes:
+            src_side = {l: s_ for s_, ls in self.source.items() for l in ls}
+            defs = body.defs()
+
+            def copy_of(t):
+                ds = [d for d in defs.get(t, []) if d[2] == "assign"]
+                if len(ds) == 1 and len(defs.get(t, [])) == 1 and ds[0][3]["rv"]["r"] == "use":
+                    pl = ds[0][3]["rv"]["op"].get("c") or ds[0][3]["rv"]["op"].get("m")
+                    if pl and not pl["p"]:
+                        return pl["l"]
+                return t
+            def places():
+                for blk in body.blocks:
+                    if blk.get("cleanup"):
+                        continue
+                    for st in blk["stmts"]:
+                        if st["s"] == "assign":
+                            yield st["pl"]
+                            rv = st["rv"]
+                            if rv["r"] in ("ref", "rawptr", "discr"):
+                                yield rv["pl"]
+                            for key in ("op", "a", "b"):
+                                o = rv.get(key)
+                                if isinstance(o, dict):
+                                    for kk in ("c", "m"):
+                                        if kk in o:
+                                            yield o[kk]
+            for pl in places():
+                for p in pl["p"]:
+                    if p[0] == "i" and pl["l"] in src_side:
+                        L = copy_of(p[1])
+                        if L in usizes:
+                            self.index[src_side[pl["l"]]] = L
+            for l in usizes:
+                if l not in self.index.values():
+                    self.unknown.append(l)
 
     def sides(self):
         return sorted(set(self.cursor) | set(self.source))
@@ -108,7 +150,8 @@ class Layout:
                 "cursor": {s: nm(l) + ":" + k for s, (l, k) in self.cursor.items()},
                 "source": {s: [nm(l) for l in ls] for s, ls in self.source.items()},
                 "out": (nm(self.out[0]) + ":" + self.out[1]) if self.out else None,
-                "points": [nm(l) for l in self.points], "flags": [nm(l) for l in self.bools]}
+                "points": [nm(l) for l in self.points], "flags": [nm(l) for l in self.bools],
+                "index": {s: nm(l) for s, l in self.index.items()}}
 
 
 def natural_loop(body, head, dom):
@@ -189,6 +232,8 @@ class Sweep:
             else:
                 env[l] = ("adt", "Result", "Ok", (("lin", "idx", 0),)) if shape["mode"] == "Ok" else \
                     ("adt", "Result", "Err", (("vec", ("sym", "R0"), ()),))
+        for l in lay.index.values():
+            env[l] = 0
         for l in lay.points:
             env[l] = X
         for l, v in zip(lay.bools, flags):
@@ -215,7 +260,7 @@ class Sweep:
                 v = self.m.deref_val(env, env.get(lay.source[side][0], TOP))
                 if not (isinstance(v, tuple) and v[0] == "view"):
                     raise Unsupported("source of the %s sequence is %s at bb%d" % (side, SX._kind(v), head))
-                seq, i = v[1], v[2]
+                seq, i = v[1], v[2] + self._pos(lay, side, env)
                 if i < len(seq.elems):
                     sh[side] = True
                 elif seq.ended:
@@ -237,6 +282,16 @@ class Sweep:
             fl.append(v if isinstance(v, bool) else None)
         sh["flags"] = tuple(fl)
         return sh
+
+    def _pos(self, lay, side, env):
+        """Offset of the current block in the side's slice when the position is kept in an index local."""
+        l = lay.index.get(side)
+        if l is None:
+            return 0
+        v = env.get(l, TOP)
+        if isinstance(v, bool) or not isinstance(v, int):
+            raise Unsupported("position of the %s sequence is %s" % (side, SX._kind(v)))
+        return v
 
     @staticmethod
     def expand_shape(sh):
@@ -282,7 +337,7 @@ class Sweep:
             raise Unsupported("cursor of the %s sequence mixes known and unknown bounds: (%s, %s)" % (side, lo, hi))
         if side in lay.source:
             v = self.m.deref_val(env, env.get(lay.source[side][0], TOP))
-            seq, i = v[1], v[2]
+            seq, i = v[1], v[2] + self._pos(lay, side, env)
             if i < len(seq.elems):
                 e = seq.elems[i]
                 if SX.is_concrete_block(e):
